@@ -286,6 +286,7 @@ func c02DrvOne(s *c02Drv, segIdx int) verdict {
 
 	sess, err := newNcSession(ncConfig{
 		adv10: true, adv11: true, preferred: s.Version, echo: s.Echo, seg: sg.seg, seed: int64(s.ID), timeout: 1500 * time.Millisecond, extra: extra, trace: true,
+		reuseBuf: s.ID%4 == 1, // one session in four over a transport that hands out slices of one long-lived read buffer
 		reply: func(_ *simdev.NCServer, r simdev.NCRequest) []byte {
 			nreq++
 			lastID = r.MsgID
@@ -374,8 +375,15 @@ func c02DrvOne(s *c02Drv, segIdx int) verdict {
 			_ = sess.d.Close()
 			e2 = sess.d.Open()
 		})
-		if e1 == nil || !finR || panR != nil || e2 != nil {
-			v.OK, v.Sig, v.Detail = false, "TOOL", fmt.Sprintf("the earlier session: first call %v, close/open returned=%v panic=%v err=%v", e1, finR, panR, e2)
+		if e1 == nil {
+			v.OK, v.Sig, v.Detail = false, "TOOL", "the earlier session: the call that was to time out did not"
+
+			return v
+		}
+
+		if !finR || panR != nil || e2 != nil {
+			// the session under observation does not even come up: what the library makes of the server's hello is its own doing
+			fail(&v, "C02:driver:"+s.Version+":second-session-does-not-open", "after an earlier session (a call timed out, its reply came late) close/open: returned=%v panic=%v err=%v", finR, panR, e2)
 
 			return v
 		}
